@@ -10,36 +10,16 @@ import (
 )
 
 func main() {
-	dir, _ := os.MkdirTemp("/verif/.scratch", "scr")
-	defer os.RemoveAll(dir)
-	o := store.DefaultOptions().WithSynced(false).WithExternalCommitAllowance(true).WithFileSize(1024).WithMaxActiveTransactions(8)
-	st, err := store.Open(dir+"/st", o)
+	dir := os.Args[1]
+	o := store.DefaultOptions().WithSynced(true).WithSyncFrequency(time.Millisecond).WithMaxConcurrency(8).WithMaxTxEntries(4).WithMaxKeyLen(16).WithMaxValueLen(128)
+	o.WithIndexOptions(o.IndexOpts.WithFlushThld(3).WithSyncThld(3).WithMaxNodeSize(512).WithFlushBufferSize(1 << 12).WithCacheSize(32))
+	st, err := store.Open(dir, o)
 	if err != nil {
 		panic(err)
 	}
-	commit := func(ctx context.Context, k string) {
-		tx, _ := st.NewWriteOnlyTx(ctx)
-		tx.Set([]byte(k), nil, []byte("value-"+k))
-		_, err := tx.AsyncCommit(ctx)
-		fmt.Println("commit", k, err)
-	}
-	ctx, cancel := context.WithCancel(context.Background())
-	for i := 0; i < 3; i++ {
-		go commit(ctx, fmt.Sprintf("a%d", i))
-		time.Sleep(20 * time.Millisecond)
-	}
 	fmt.Println("pre", st.LastPrecommittedTxID(), "comm", st.LastCommittedTxID())
-	n, err := st.DiscardPrecommittedTxsSince(2)
-	fmt.Println("discard", n, err)
-	cancel()
-	time.Sleep(20 * time.Millisecond)
-	fmt.Println(st.AllowCommitUpto(st.LastPrecommittedTxID()))
-	fmt.Println("pre", st.LastPrecommittedTxID(), "comm", st.LastCommittedTxID())
-	fmt.Println("close", st.Close())
-	st, err = store.Open(dir+"/st", o)
-	fmt.Println("open", err)
-	if err == nil {
-		fmt.Println("pre", st.LastPrecommittedTxID(), "comm", st.LastCommittedTxID())
-		st.Close()
-	}
+	ctx, c := context.WithTimeout(context.Background(), 2*time.Second)
+	defer c()
+	fmt.Println("wait", st.WaitForIndexingUpto(ctx, st.LastCommittedTxID()))
+	st.Close()
 }
